@@ -4,7 +4,7 @@ import json, subprocess
 
 CHECKS = {
  "C01": ("model_checking", "5 (C01)", "explicit-state BFS over the real BufBitWriter + per-node replay on all real backends/finishers, vs bit-vector model",
-         "Every (writer state, operation) pair within depth 3 (full alphabet at depths 1-2, boundary alphabet at depth 3; depth 4 in thorough; whole reachable space for 8-bit words) for both endiannesses and all five word sizes is executed on the real code and compared with an independent bit-vector model, and every explored history is replayed on every backend kind and finisher. Exhaustive inside the stated depth/alphabet; not a proof for longer histories.",
+         "Every (writer state, operation) pair within depth 3 (full alphabet at depths 1-2, boundary alphabet at depth 3; depth 4 in thorough; whole reachable space for 8-bit words) for both endiannesses and all five word sizes is executed on the real code and compared with an independent bit-vector model, and every explored history is replayed on seven backend kinds (vector owned/borrowed, fixed slice, byte adapter over Vec / a 3-bytes-per-call sink / a commit-on-flush sink, recorder) x four finishers; plus long streams (unary codes of up to 70 001 zeros, 1 200 consecutive writes). Exhaustive inside the stated depth/alphabet; not a proof for longer histories.",
          "Trusted: the reference model (canonical layout, ~100 lines) and parametricity of BufBitWriter in its WordWrite backend. Values are from a 4-pattern x {clean,dirty} alphabet, not all 2^64."),
  "C02": ("model_checking", "5 (C02)", "explicit-state BFS to the fixpoint of the real reader objects (exact Debug-string state identity) vs bit-vector model",
          "The whole reachable state space of every reader kind x backend x endianness over each image is enumerated (the space closes because keys are exact concrete states), and every enabled operation of the full alphabet is executed from every state on a clone and compared with the model. Exhaustive for the given images; data-dependence outside the images is the residual risk.",
@@ -16,19 +16,19 @@ CHECKS = {
          "Every (code, parameter, value) of the grid is written with every write variant and every word size and compared bit for bit with the reference encoder, which is itself validated against python/gen_code_tables.py, the documented table and the regression vectors on every run.",
          "Trusted: the reference encoder (textbook definitions, validated)."),
  "C05": ("model_checking", "5 (C05)", "complete sweep of all 6656x2 decode-table indices at every offset/fill + BFS to fixpoint of readers with table operations, table vs table-free on clones",
-         "Complete over table indices and table entries (finite spaces enumerated entirely), over offsets 0..=W+1 and over the reachable reader states on code images; premise (which reader may use which table) taken from the library's own diagnostic.",
-         "Trusted: reference decoder; continuation bits after the index are from 2-4 patterns."),
+         "Complete over table indices and table entries (finite spaces enumerated entirely), over offsets 0..=2W+1 and over the reachable reader states on code images; premise (which reader may use which table) taken from the library's own diagnostic.",
+         "Trusted: reference decoder; continuation bits after the index are from 4 (thorough 8) patterns."),
  "C06": ("exploration", "5 (C06)", "bounded-exhaustive enumeration of every length function vs reference length, plus write return / stream growth / read advance on real streams",
-         "All length functions and dispatch length objects are evaluated on all values below 2^16 (2^20 thorough), every power of two +-2, code-specific steps and maxima, for all parameters; a grid over a 64-bit domain.",
+         "All length functions and dispatch length objects are evaluated on all values below 2^20 (2^22 thorough), every power of two +-2, code-specific steps (incl. multiples of Golomb moduli around every power of two) and maxima, for all parameters; a grid over a 64-bit domain.",
          "Trusted: reference lengths."),
  "C07": ("model_checking", "5 (C07)", "explicit-state BFS to the fixpoint of the real reader with set_bit_pos(p) for every p from every state; bit_pos checked after every transition",
-         "Every seek target from every reachable state over six backend kinds; post-seek objects are ordinary states expanded with the full alphabet, so 'seek == fresh reader at p' is decided for every continuation.",
+         "Every seek target from every reachable state over six backend kinds (plus byte streams with a partial trailing word); post-seek objects are ordinary states expanded with the full alphabet, so 'seek == fresh reader at p' is decided for every continuation; states reached through a reported error are continued by seeks.",
          "Trusted: reference model; finite image set."),
  "C08": ("model_checking", "5 (C08)", "two BFS views of the reader x writer product cut at the copy step (source view to fixpoint, destination view depth 3), on both copy-path builds",
-         "All continuations of all post-copy source states are explored (fixpoint), with copies of many lengths into writers of all word sizes; destination view bounded to depth 3. Run on the optimised and on the generic copy paths; both must match the model.",
+         "All continuations of all post-copy source states are explored (fixpoint), with copies of many lengths into writers of all word sizes; destination view bounded to depth 3; a grid of long copies (127..1025 words). Run on the optimised and on the generic copy paths; both must match the model.",
          "Trusted: reference model; quick tier uses a boundary set of copy lengths, thorough 0..=3W+2."),
  "C09": ("fault_enumeration", "5 (C09)", "enumeration of every truncation point (after every backend word) x BFS to fixpoint of the reader on strict and zero-extended backends",
-         "Every truncation point of valid streams, every reachable reader state and every operation classified by the model as inside/outside the data; complete for the images used.",
+         "Every truncation point of valid streams (also followed by a partial trailing word on byte streams), every reachable reader state and every operation classified by the model as inside/outside the data, seeks after reported errors, and codewords ending exactly with the last bit of a strict stream; complete for the images used.",
          "Trusted: reference decoder decides whether an operation needs a bit beyond the end."),
  "C12": ("model_checking", "5 (C12)", "explicit-state BFS over writer fill states x io::Write of every length 0..=40; reader BFS to fixpoint with io::Read of every length 0..=40",
          "Every starting bit offset x every slice length on every word size (writer) and every reachable reader state x every length (reader), against the byte-in-stream-order model.",
@@ -37,7 +37,7 @@ CHECKS = {
          "Complete over the identifier space (all 51 constants and aliases, every enumeration variant with parameters 0..=12 and large ones) and over the dispatcher kinds; values from the boundary grid. Bytes, lengths, values and end positions through each dispatcher are compared with the direct method.",
          "Trusted: the direct trait methods as specification (their correctness is C03/C04/C06); ConstCode identifiers are looked up by the NAME of the constant."),
  "C11": ("model_checking", "5 (C11)", "deviation-bounded exhaustive exploration of the wrapped Read/Write's answers (short counts, Interrupted, errors) + BFS of the adapter over a seekable Cursor",
-         "Every schedule of environment answers with at most 2 (thorough 3) deviations from the default, at every call index, for all word sizes and 1-3 words; plus explicit-state BFS of word positions over a Cursor. Exhaustive within the deviation bound.",
+         "Every schedule of environment answers with at most 3 (thorough 5) deviations from the default, at every call index, for all word sizes and 1-3 words; explicit-state BFS of word positions over a Cursor (also pre-positioned); bit streams through the adapter over plain / chunking / commit-on-flush sinks. Exhaustive within the deviation bound.",
          "Trusted: the environment alphabet matches what std::io::Read/Write permit."),
  "C13": ("model_checking", "5 (C13)", "explicit-state BFS to the fixpoint over the real memory word streams vs Vec+cursor model, cross-checked by stateright's BFS checker (state counts must agree)",
          "All reachable states from every initial array of length <= 3 over a 3-letter alphabet for four stream types x five word types x owned/borrowed storage; two independent engines.",
@@ -51,17 +51,17 @@ CHECKS = {
  "C16": ("exploration", "5 (C16)", "complete enumeration of variants x parameters, identifiers 0..=80, a malformed-text grammar, and all pairs of codes that compare equal",
          "Finite spaces enumerated completely (names, identifiers, equivalence classes); malformed texts from a small grammar.",
          "Trusted: the oracle does not constrain trailing text after a valid parameter."),
- "C17": ("exploration", "5 (C17)", "complete enumeration of the 8/16-bit (thorough: 32-bit) types, dense windows for wider types, vs closed formulas",
-         "Exhaustive for 8 and 16 bits (and 32 bits in the thorough tier); windows of 2^12 (2^16) around 0, MIN, MAX and every power of two for 32/64/128-bit and pointer-size types.",
+ "C17": ("exploration", "5 (C17)", "complete enumeration of the 8/16/32-bit types, dense windows + two-bit sums + limb-boundary patterns for wider types, vs closed formulas",
+         "Exhaustive for 8, 16 and 32 bits; for 64/128-bit and pointer-size types windows of 2^16 (2^20) around 0, MIN, MAX and every power of two, every value with two set bits +-2, and limb-boundary patterns.",
          "Trusted: the closed formulas of the statement."),
- "C18": ("exploration", "5 (C18)", "complete enumeration of all terminated byte strings of length <= 3, all values below 2^21 and length-step boundaries; io functions vs bit-stream traits vs reference",
-         "Completeness decided on all 2 113 664 strings of length <= 3; agreement of io and bit-stream variants on the value grid for every stream endianness and word size.",
+ "C18": ("exploration", "5 (C18)", "complete enumeration of all terminated byte strings of length <= 4 (thorough 5), all values below 2^21 and length-step boundaries; io functions vs bit-stream traits vs reference",
+         "Completeness decided on all terminated strings of length <= 4 (270 M; thorough: length 5, 2^35); agreement of io and bit-stream variants on the value grid for every stream endianness and word size, also over chunking sinks/sources and at the very end of strict streams.",
          "Trusted: the offset definition of the complete code in the module documentation."),
  "C19": ("model_checking", "5 (C19)", "the same reduced state-space explorations run in several builds of the library (features x profiles); all must match the model, digests must agree; complete dirty-bit sweep of write_bits",
          "Quick: 3 builds (default, checks+no_copy_impls, checks+debug assertions); thorough: all 8 of the matrix. Each runs writer BFS, reader BFS to fixpoint and code streams on clean arguments; the argument check is swept over every n and every single dirty bit.",
          "Trusted: same toolchain/host for all variants."),
- "C20": ("exploration", "5 (C20)", "bounded-exhaustive: monotonicity and exact Kraft sums of all length functions; change-point iterator on all library length functions and ALL <=3-step functions on a 39-point grid with a call budget",
-         "Dense prefixes (2^16 / 2^20) and windows around powers of two for monotonicity and Kraft; the iterator is run on 10 701 synthetic step functions and every library length function, with termination decided by a call budget.",
+ "C20": ("exploration", "5 (C20)", "bounded-exhaustive: monotonicity and exact Kraft sums of all length functions; change-point iterator on all library length functions and ALL <=5-step functions on a 39-point grid with a call budget",
+         "Dense prefixes (2^20 / 2^21) and windows around powers of two for monotonicity and Kraft; the iterator is run on all step functions with at most 5 (thorough 6) steps on a 39-point grid (658 k / 3.9 M functions, each with two value maps) and on every library length function, with termination decided by a call budget.",
          "Trusted: the call budget (200 000 evaluations) separates termination from non-termination."),
 }
 
